@@ -132,6 +132,30 @@ def run_c06(repo, tier, seed, only=None):
                             break
                 if bad:
                     R.fail('bounded:C06.parent-n-denotes-the-same-location-however-the-file-was-reached', f'{label}: {bad}'[:500], {'family': 'c06', 'docs': []})
+            # a name that exists both next to the including file and in the working directory: the one next to the including file is taken
+            # (top-level include, include under a key, and the including file itself reached through an include from the working directory)
+            if it < 8:
+                for fn_, who in ((os.path.join(sub, 'both.yaml'), 'next-to-includer'), (os.path.join(d, 'both.yaml'), 'cwd')):
+                    with open(fn_, 'w') as f:
+                        f.write('{who: %s}\n' % who)
+                with open(os.path.join(sub, 'inc_both.yaml'), 'w') as f:
+                    f.write('!include both.yaml\n')
+                with open(os.path.join(sub, 'key_both.yaml'), 'w') as f:
+                    f.write('k: !include both.yaml\n')
+                with open(os.path.join(d, 'outer_both.yaml'), 'w') as f:
+                    f.write('!include sub/inc_both.yaml\n')
+                for label, arg, want in (('top-level include', os.path.join(sub, 'inc_both.yaml'), {'who': 'next-to-includer'}),
+                                         ('include under a key', os.path.join(sub, 'key_both.yaml'), {'k': {'who': 'next-to-includer'}}),
+                                         ('including file reached through an include', os.path.join(d, 'outer_both.yaml'), {'who': 'next-to-includer'}),
+                                         ('file only in the working directory (fallback)', None, {'who': 'cwd'})):
+                    if arg is None:
+                        os.remove(os.path.join(sub, 'both.yaml'))
+                        arg = os.path.join(sub, 'inc_both.yaml')
+                    got = build_files(ay, (arg,), cwd=d, raw_yaml=False)
+                    R.cases += 1
+                    if not (got[0] == 'ok' and unordered_eq(got[1], want)):
+                        R.fail('bounded:C06.included-name-resolves-next-to-the-including-file-first-then-in-the-working-directory',
+                               f'{label}: expected {want!r}, got {got!r}'[:500], {'family': 'c06', 'docs': []})
         finally:
             shutil.rmtree(d, ignore_errors=True)
     return R.result()
@@ -248,6 +272,9 @@ def gen_rich_doc(rng):
                 "!path:parent [c]", "!import os.path", "!null", "!metadata{{'k': 1, 'priority': 1}} 7", "!call:builtins.list [[1, 2]]", "!append [1]", "!prev a",
                 "!bind:os.path.split{{ 'delete': False }} {x: 1}", "!call:builtins.dict{{ 'delete': True, 'priority': 1 }} {x: 1}",
                 "!call:builtins.dict{{ 'delete': False, 'allow_new': False }} {x: !weak 1}",
+                # a container written with an encoded metadata block whose composed child carries the SAME explicit delete flag
+                "!metadata{{'delete': False, 'note': 1}} {l: !merge [{x: 1}], k: 2}", "!metadata{{'delete': True, 'note': 1}} {l: !del {x: 1}}",
+                "!weak {a: !del {b: !del {c: 1}}}", "!call:builtins.dict{{'delete': False}} {l: !merge [{x: 1}]}", "!unsafe {a: !merge {b: !merge [1]}}",
                 # strings that only survive a dump when they are quoted (after an earlier scalar was written in unquoted mode)
                 "'x: y'", "' lead'", "'a #b'", "'*star'", "['[q', 'k: v']", "{'k: 1': 2}"]
     text = G.render(d)
